@@ -164,6 +164,30 @@ theorem nonprefixable_chunks (i : Nat) (hi : i < 16) : nonprefixableChunkOk i = 
     exact List.all_eq_true.mpr (this p hp)
   exact all_of_slices3 _ _ 110 base_length (h 0 (by omega)) (h 1 (by omega)) (h 2 (by omega))
 
+theorem gen_chunks : ∀ k, k < 16 → genChunkOk k = true
+  | 0, _ => gen_chunk_00
+  | 1, _ => gen_chunk_01
+  | 2, _ => gen_chunk_02
+  | 3, _ => gen_chunk_03
+  | 4, _ => gen_chunk_04
+  | 5, _ => gen_chunk_05
+  | 6, _ => gen_chunk_06
+  | 7, _ => gen_chunk_07
+  | 8, _ => gen_chunk_08
+  | 9, _ => gen_chunk_09
+  | 10, _ => gen_chunk_10
+  | 11, _ => gen_chunk_11
+  | 12, _ => gen_chunk_12
+  | 13, _ => gen_chunk_13
+  | 14, _ => gen_chunk_14
+  | 15, _ => gen_chunk_15
+  | n + 16, h => absurd h (by omega)
+
+theorem genKey_all (i : Nat) (hi : i < lutC.length) : genKeyOk i = true := by
+  have h := gen_chunks (i % 16) (Nat.mod_lt _ (by omega))
+  simp only [genChunkOk, List.all_eq_true] at h
+  exact h i (by simp [keysOfChunk, List.mem_filter, List.mem_range, hi])
+
 /-- a row of the whole table lies in one of the 16 chunks -/
 theorem mem_allRows {r : NameRow} (h : r ∈ allRows) : ∃ i, i < 16 ∧ r ∈ rowsChunk i := by
   simp only [allRows, List.mem_append] at h
